@@ -101,10 +101,30 @@ def make(targets: Sequence[str], timeout: int = 1500, force: Sequence[str] = ())
         return p.returncode == 0, p.stdout
 
 
-def lint() -> List[str]:
-    """Forbidden constructs anywhere in the development (comments stripped)."""
+def cone(roots: Sequence[str]) -> List[str]:
+    """Files (relative to coq/) reachable from roots through `From RC Require ...` lines."""
+    seen: List[str] = []
+    todo = list(roots)
+    while todo:
+        rel = todo.pop()
+        if rel in seen or not (COQ / rel).exists():
+            continue
+        seen.append(rel)
+        text = strip_coq_comments((COQ / rel).read_text())
+        for m in re.finditer(r"From\s+RC\s+Require\s+(?:Import\s+|Export\s+)?(.*?)\.(?:\s|$)", text, re.S):
+            for name in m.group(1).split():
+                todo.append(name.replace(".", "/") + ".v")
+        for m in re.finditer(r"Require\s+(?:Import\s+|Export\s+)?(.*?)\.(?:\s|$)", text, re.S):
+            for name in m.group(1).split():
+                if name.startswith("RC."):
+                    todo.append(name[3:].replace(".", "/") + ".v")
+    return seen
+
+
+def lint(files: Optional[Sequence[str]] = None) -> List[str]:
+    """Forbidden constructs in the given files (default: the whole development)."""
     bad = []
-    for rel in coq_sources():
+    for rel in (files if files is not None else coq_sources()):
         text = (COQ / rel).read_text()
         text = strip_coq_comments(text)
         for i, line in enumerate(text.split("\n"), 1):
@@ -360,11 +380,13 @@ class Ctx:
 
 
 def load_known(pid: str) -> List[Dict[str, Any]]:
-    f = VERIF / "known_findings.json"
-    if not f.exists():
-        return []
-    data = json.loads(f.read_text())
-    return [e for e in data.get("findings", []) if e.get("property") == pid]
+    out: List[Dict[str, Any]] = []
+    files = [VERIF / "known_findings.json"] + sorted((VERIF / "known_findings.d").glob("*.json"))
+    for f in files:
+        if f.exists():
+            data = json.loads(f.read_text())
+            out += [e for e in data.get("findings", []) if e.get("property") == pid]
+    return out
 
 
 # ----------------------------------------------------------------------------------------
@@ -405,7 +427,8 @@ def run_property(pid: str, tier: str, seed: int) -> int:
     checker_cmd = "make -f Makefile -j16 " + " ".join(p + "o" for p in mod.PROPS) + " (coqc 8.16.1, full .vo build; Print Assumptions parsed)"
     try:
         # 0. lint
-        bad = lint()
+        roots = list(mod.PROPS) + [f"extract/Extract{n}.v" for n in getattr(mod, "EXTRACTS", [])]
+        bad = lint(cone(roots))
         if bad:
             ctx.obligation_broken("lint", "; ".join(bad[:20]))
         # 1. T1
